@@ -214,6 +214,7 @@ PROPS = {
     ),
     'C08': dict(
         domains=[dict(name='cors', quick=24000, thorough=400000)],
+        race_domains=[dict(name='cors', quick=320, thorough=8000, args=['-force-conc'])],
         verdicts=['c08_*'],
         project={'cors': proj_cors},
         prop_files=['props/C08.v'],
